@@ -1,13 +1,678 @@
-(* C11 -- proofs about the Thread messaging LTS (Conc/ThreadQ.v). *)
+(* C11 -- the theorems about the Thread messaging LTS (Conc/ThreadQ.v), from the invariants of ThreadQWf / ThreadQWake. *)
 From Coq Require Import List Arith Bool Lia.
-From Muscle Require Import Conc.ThreadQ.
+From Muscle Require Import Conc.ThreadQ Conc.ThreadQWf Conc.ThreadQWake.
 Import ListNotations.
 
-Section Proofs.
+Ltac inv H := inversion H; subst; clear H.
+
+(* ---------- enabledness: a step function result exists ---------- *)
+
+(* the program counters at which a thread can be blocked *)
+Definition blocked (g : gst) (l : local) : bool :=
+  match l_pc l with
+  | PRecvPark x _ => negb (readable g x)
+  | PIEvWait => negb (readable g CI)
+  | PJoinWait => match g_ist g with IExited => false | _ => true end
+  | PIdle | PIDone => true
+  | _ => false
+  end.
+
+Section Enabled.
 Variable absorb_n : nat.
 Variable react : nat -> list msg * bool.
 
-Lemma init_reachable : forall m e, reachable absorb_n react m e (sys0 m e).
-Proof. intros m e. apply reach_init. Qed.
+Lemma fin_some : forall g r k e, exists x, fin react g r k e = Some x.
+Proof. intros. unfold fin. destruct (ret react (g_evd g) r k) as [[p k'] e']. eauto. Qed.
 
-End Proofs.
+Lemma step_enabled : forall g l, blocked g l = false -> exists x, step absorb_n react CRun g l = Some x.
+Proof.
+  intros g [p k] Hb. unfold blocked in Hb. simpl in Hb. unfold step. simpl.
+  destruct p; try discriminate; unfold goto;
+    try (apply negb_false_iff in Hb; rewrite Hb);
+    repeat match goal with
+    | |- exists x, (match ?y with _ => _ end) = Some x => destruct y eqn:?
+    | |- exists x, (if ?y then _ else _) = Some x => destruct y eqn:?
+    | |- exists x, (let (_, _) := ?y in _) = Some x => destruct y eqn:?
+    end; eauto using fin_some; try discriminate.
+Qed.
+
+End Enabled.
+
+(* ---------- the shutdown invariant ---------- *)
+
+(* the owner is inside ShutdownInternalThread(true), the NULL Message already appended *)
+Definition sh_wait (l : local) : bool :=
+  match l_pc l, l_k l with
+  | PSendSig CI _, [KShutdown true] => true
+  | PJoinTest, [KDiscard] | PJoinWait, [KDiscard] => true
+  | _, _ => false
+  end.
+
+(* the internal thread has removed a NULL Message and is on its way out *)
+Definition exiting (p : pc) : bool :=
+  match p with PRecvGot CI None _ | PIExit => true | _ => false end.
+
+Definition S_inv (s : sys) : Prop :=
+  sh_wait (s_l s 0) = true ->
+  In None (c_q (g_ci (s_g s))) \/ g_ist (s_g s) = IExited \/ (g_ist (s_g s) = ILive /\ exiting (l_pc (g_il (s_g s))) = true).
+
+Section Shutdown.
+Variable absorb_n : nat.
+Variable react : nat -> list msg * bool.
+Variable ok : label -> bool.
+Variables smode emode : bool.
+
+Notation Step := (Step absorb_n react).
+Notation sys_step := (sys_step absorb_n react).
+Notation reachable_if := (reachable_if absorb_n react).
+
+Ltac destr_k k := destruct k as [|[] [|? ?]]; try contradiction.
+Ltac kill_ret :=
+  repeat match goal with
+  | Hr : ret _ _ _ _ = _ |- _ => simpl in Hr
+  | Hr : (if ?w then _ else _) = (_, _, _) |- _ => destruct w
+  | Hr : (_, _, _) = (_, _, _) |- _ => inv Hr
+  end.
+
+(* what a user thread's step does to the internal thread's queue and to the thread's status *)
+Lemma Step_user_qi_grows : forall t c g l g' l' ev, upc_ok t l -> Step c g l g' l' ev ->
+  (In None (c_q (g_ci g)) -> In None (c_q (g_ci g'))).
+Proof.
+  intros t c g l g' l' ev Hu HS Hin.
+  destruct (Step_qi_user absorb_n react _ _ _ _ _ _ _ Hu HS) as [Q | [m Hm]]; [rewrite Q; exact Hin|].
+  inversion HS; subst; simpl in Hm; try discriminate. inv Hm. simpl. apply in_or_app. left. exact Hin.
+Qed.
+
+Lemma S_init : S_inv (sys0 smode emode).
+Proof. intros H. discriminate. Qed.
+
+Lemma S_step : forall s lab s' ev, wf smode emode s -> S_inv s -> sys_step s lab = Some (s', ev) -> S_inv s'.
+Proof.
+  intros s lab s' ev W Sv H.
+  destruct lab as [t o | [t|] c]; simpl in H.
+  - (* begin *)
+    destruct (begin_op t o (s_l s t)) eqn:Hb; [|discriminate]. inv H.
+    unfold begin_op in Hb. destruct (l_pc (s_l s t)) eqn:Hp; try discriminate.
+    destruct (l_k (s_l s t)) eqn:Hk; try discriminate.
+    destruct (allowed t o) eqn:Ha; [|discriminate]. inv Hb.
+    unfold S_inv in *. simpl. unfold upd. destruct (Nat.eqb_spec 0 t) as [<- | Ht].
+    + unfold sh_wait. simpl. destruct (pc_of_op o); try discriminate; destruct c; discriminate.
+    + exact Sv.
+  - (* a user thread's step *)
+    destruct (step absorb_n react c (s_g s) (s_l s t)) as [[[g' l'] e']|] eqn:Hst; [|discriminate]. inv H.
+    apply step_spec in Hst.
+    destruct (s_l s t) as [p k] eqn:El.
+    assert (Hu : upc_ok t (mkL p k)) by (rewrite <- El; apply (wf_upc _ _ _ W)).
+    unfold S_inv in *. simpl. unfold upd. destruct (Nat.eqb_spec 0 t) as [<- | Ht].
+    + (* the owner's own step *)
+      intros Hw.
+      inversion Hst; subst; clear Hst; unfold upc_ok in Hu; simpl in Hu; try contradiction;
+        unfold sh_wait in Hw; simpl in Hw; try discriminate.
+      all: repeat match goal with y : chanid |- _ => destruct y | y : msg |- _ => destruct y end; simpl in Hu; try contradiction;
+           try (destr_k k); simpl in Hu; try contradiction; kill_ret; simpl in Hw; try discriminate;
+           try (match goal with b : bool |- _ => match b with smode => fail 1 | emode => fail 1 | _ => destruct b; simpl in Hw; try discriminate end end).
+      all: first
+        [ (* the NULL Message is appended *)
+          left; unfold enq; simpl; apply in_or_app; right; left; reflexivity
+        | (* its signal *)
+          match goal with Hs : signal _ _ = _ |- _ => apply signal_frame in Hs;
+            destruct Hs as (_ & _ & _ & _ & _ & F6 & F7 & _ & F9 & _) end;
+          rewrite F6, F7; destruct (F9 CI) as (Q & _); simpl in Q; rewrite Q; apply Sv; rewrite El; reflexivity
+        | apply Sv; rewrite El; reflexivity ].
+    + (* another thread's step: it can only be sending *)
+      intros Hw. specialize (Sv Hw).
+      assert (Hsame : g_ist g' = g_ist (s_g s) /\ g_il g' = g_il (s_g s)).
+      { destruct (Step_running _ _ _ _ _ _ _ _ Hst) as [[n Hn] | [Hj | [Hx | (R1 & R2 & R3 & R4)]]]; simpl in *; auto;
+          subst p; unfold upc_ok in Hu; simpl in Hu; try contradiction.
+        - destruct k; [congruence | contradiction].
+        - destruct k as [|[] [|]]; try contradiction; congruence. }
+      destruct Hsame as [I1 I2]. rewrite I1, I2.
+      destruct Sv as [Hin | Hx]; [left | right; exact Hx].
+      eapply Step_user_qi_grows; eauto.
+  - (* the internal thread's step *)
+    destruct (g_ist (s_g s)) eqn:Hl; try discriminate.
+    destruct (step absorb_n react c (s_g s) (g_il (s_g s))) as [[[g' l'] e']|] eqn:Hst; [|discriminate]. inv H.
+    apply step_spec in Hst.
+    destruct (g_il (s_g s)) as [p k] eqn:El.
+    assert (Hi : ipc_ok (mkL p k)) by (rewrite <- El; apply (wf_ipc _ _ _ W); exact Hl).
+    unfold S_inv in *. simpl. intros Hw. specialize (Sv Hw).
+    assert (Sv' : In None (c_q (g_ci (s_g s))) \/ exiting p = true).
+    { destruct Sv as [A | [B | [_ C]]]; [left; exact A | congruence | right; rewrite El in C; exact C]. }
+    clear Sv.
+    inversion Hst; subst; clear Hst; unfold ipc_ok in Hi; simpl in Hi; try contradiction;
+      try (destruct Sv' as [A | B]; [left; exact A | simpl in B; try discriminate]; fail).
+    all: try (destruct x; simpl in Hi; try contradiction).
+    all: try (destruct Sv' as [A | B]; [left; simpl; exact A | simpl in B; try discriminate]; fail).
+    + (* a signal: the queue is unchanged *)
+      destruct Sv' as [A | B]; [|simpl in B; discriminate]. left.
+      match goal with Hs : signal _ _ = _ |- _ => apply signal_frame in Hs; destruct Hs as (_&_&_&_&_&_&_&_&F9&_) end.
+      destruct (F9 CI) as (Q & _). simpl in Q. rewrite Q. exact A.
+    + (* absorb *)
+      destruct Sv' as [A | B]; [|simpl in B; discriminate]. left.
+      pose proof (absorb_frame absorb_n CI (s_g s)) as F. simpl in F. destruct F as (_&_&_&_&_&_&_&_&F9&_).
+      destruct (F9 CI) as (Q & _). simpl in Q. rewrite Q. exact A.
+    + (* dequeue *)
+      destruct Sv' as [A | B]; [|simpl in B; discriminate].
+      match goal with Hq : c_q _ = _ :: _ |- _ => simpl in Hq; rewrite Hq in A end.
+      destruct A as [-> | A]; [right; right; split; [exact Hl | reflexivity] | left; simpl; exact A].
+    + (* the NULL Message is dispatched *)
+      destruct Sv' as [A | B]; [left; exact A|]. simpl in B. destruct m; try discriminate.
+      destr_k k. kill_ret. right. right. split; [exact Hl | reflexivity].
+    + (* the start-up signal *)
+      destruct Sv' as [A | B]; [|simpl in B; discriminate]. left.
+      match goal with Hs : signal _ _ = _ |- _ => apply signal_frame in Hs; destruct Hs as (_&_&_&_&_&_&_&_&F9&_) end.
+      destruct (F9 CI) as (Q & _). simpl in Q. rewrite Q. exact A.
+    + (* the thread finishes *)
+      right. left. reflexivity.
+Qed.
+
+Theorem reachable_S : forall s, reachable_if ok smode emode s -> S_inv s.
+Proof.
+  intros s H. induction H.
+  - apply S_init.
+  - eapply S_step; eauto. eapply reachable_wf; eauto.
+Qed.
+
+End Shutdown.
+
+(* ---------- several steps ---------- *)
+
+Section Multi.
+Variable absorb_n : nat.
+Variable react : nat -> list msg * bool.
+Variable ok : label -> bool.
+Variables smode emode : bool.
+
+Notation sys_step := (sys_step absorb_n react).
+Notation reachable_if := (reachable_if absorb_n react).
+
+Inductive steps_if : sys -> sys -> Prop :=
+| steps_refl : forall s, steps_if s s
+| steps_cons : forall s lab s' ev s'', ok lab = true -> sys_step s lab = Some (s', ev) -> steps_if s' s'' -> steps_if s s''.
+
+Lemma steps_reachable : forall s s', steps_if s s' -> reachable_if ok smode emode s -> reachable_if ok smode emode s'.
+Proof. intros s s' H. induction H; intros R; auto. apply IHsteps_if. eapply reach_step; eauto. Qed.
+
+Lemma hist_ext_refl : forall g, hist_ext g g.
+Proof. intros g c. exists [], []. rewrite !app_nil_r. auto. Qed.
+
+Lemma hist_ext_trans : forall a b c, hist_ext a b -> hist_ext b c -> hist_ext a c.
+Proof.
+  intros a b c H1 H2 x. destruct (H1 x) as (u1 & v1 & E1 & F1). destruct (H2 x) as (u2 & v2 & E2 & F2).
+  exists (u1 ++ u2), (v1 ++ v2). rewrite E2, E1, F2, F1, !app_assoc. auto.
+Qed.
+
+Lemma steps_hist : forall s s', steps_if s s' -> hist_ext (s_g s) (s_g s').
+Proof.
+  intros s s' H. induction H.
+  - apply hist_ext_refl.
+  - eapply hist_ext_trans; [|exact IHsteps_if]. eapply sys_step_hist; eauto.
+Qed.
+
+(* Exactly once and in order, over any stretch of execution: what is received during it is -- in this order -- what was
+   queued at its beginning followed by what was appended during it; nothing else, nothing twice, nothing overtaken. *)
+Theorem fifo_no_overtaking : forall s s' c,
+  reachable_if ok smode emode s -> steps_if s s' ->
+  exists got more,
+    c_rcvd (ch (s_g s') c) = c_rcvd (ch (s_g s) c) ++ got /\
+    c_sent (ch (s_g s') c) = c_sent (ch (s_g s) c) ++ more /\
+    got ++ c_q (ch (s_g s') c) = c_q (ch (s_g s) c) ++ more.
+Proof.
+  intros s s' c R St.
+  pose proof (reachable_fifo _ _ _ _ _ _ R c) as F.
+  pose proof (reachable_fifo _ _ _ _ _ _ (steps_reachable _ _ St R) c) as F'.
+  destruct (steps_hist _ _ St c) as (a & b & Ea & Eb).
+  exists b, a. repeat split; auto.
+  rewrite Ea, Eb, F in F'. rewrite <- !app_assoc in F'. apply app_inv_head in F'. auto.
+Qed.
+
+End Multi.
+
+(* ---------- the theorems that need the wake-up invariant ---------- *)
+
+Definition J_inv (s : sys) : Prop := l_pc (s_l s 0) = PJoinWait -> g_running (s_g s) = true.
+
+Section Theorems.
+Variable absorb_n : nat.
+Variable react : nat -> list msg * bool.
+Variable ok : label -> bool.
+Variables smode emode : bool.
+Hypothesis Hmode : emode = true -> forall lab, ok lab = true -> owner_sends_ci lab = true.
+
+Notation sys_step := (sys_step absorb_n react).
+Notation reachable_if := (reachable_if absorb_n react).
+Notation R := (reachable_if ok smode emode).
+
+Lemma int_enabled : forall s, g_ist (s_g s) = ILive -> blocked (s_g s) (g_il (s_g s)) = false ->
+  exists x, sys_step s (LStep I CRun) = Some x.
+Proof.
+  intros s Hl Hb. simpl. rewrite Hl. destruct (step_enabled absorb_n react _ _ Hb) as [[[g' l'] e] Hx]. rewrite Hx. eauto.
+Qed.
+
+Lemma user_enabled : forall s t, blocked (s_g s) (s_l s t) = false -> exists x, sys_step s (LStep (U t) CRun) = Some x.
+Proof.
+  intros s t Hb. simpl. destruct (step_enabled absorb_n react _ _ Hb) as [[[g' l'] e] Hx]. rewrite Hx. eauto.
+Qed.
+
+Lemma ipc_looks_unblocked : forall g l evd, ipc_ok l -> will_look evd (l_pc l) = true -> blocked g l = false.
+Proof.
+  intros g [p k] evd Hi Hw. unfold ipc_ok in Hi. unfold blocked. simpl in *.
+  destruct p; try reflexivity; try contradiction; try discriminate;
+    try (destruct c; try discriminate); try (destruct k as [|[] [|? ?]]; contradiction).
+Qed.
+
+Lemma ipc_readable_unblocked : forall g l, ipc_ok l -> readable g CI = true -> blocked g l = false.
+Proof.
+  intros g [p k] Hi Hr. unfold ipc_ok in Hi. unfold blocked. simpl in *.
+  destruct p; try reflexivity; try contradiction;
+    try (destruct c); try (rewrite Hr; reflexivity); try (destruct k as [|[] [|? ?]]; contradiction).
+Qed.
+
+Lemma pend_i_unblocked : forall g l, is_pend_i (l_pc l) = true -> blocked g l = false.
+Proof. intros g [p k] H. unfold blocked. simpl in *. destruct p; try discriminate; reflexivity. Qed.
+
+Lemma pend_o_unblocked : forall g l, is_pend_o (l_pc l) = true -> blocked g l = false.
+Proof. intros g [p k] H. unfold blocked. simpl in *. destruct p; try discriminate; reflexivity. Qed.
+
+(* No lost wake-up, internal thread: blocked (in WaitForNextMessageFromOwner or in its event loop) with a non-empty
+   queue, its wait is already satisfiable or a thread still owes it the signal. *)
+Theorem no_lost_wakeup_internal : forall s,
+  R s -> g_ist (s_g s) = ILive ->
+  (exists w, l_pc (g_il (s_g s)) = PRecvPark CI w) \/ l_pc (g_il (s_g s)) = PIEvWait ->
+  c_q (g_ci (s_g s)) <> [] ->
+  readable (s_g s) CI = true \/ exists t, is_pend_i (l_pc (s_l s t)) = true.
+Proof.
+  intros s Rs Hl Hp Hq. pose proof (reachable_wake absorb_n react ok smode emode Hmode s Rs) as Wk.
+  apply (wk_ai _ Wk); auto. destruct Hp as [[w ->] | ->]; reflexivity.
+Qed.
+
+(* No lost wake-up, owner: blocked in GetNextReplyFromInternalThread with a non-empty reply queue, its wait is already
+   satisfiable (signal bytes, end-of-file, notifications) or a sender still owes it the signal. *)
+Theorem no_lost_wakeup_owner : forall s w,
+  R s -> l_pc (s_l s 0) = PRecvPark CO w -> c_q (g_co (s_g s)) <> [] ->
+  readable (s_g s) CO = true \/ (exists t, l_pc (s_l s t) = PSendSig CO true) \/
+  (g_ist (s_g s) = ILive /\ l_pc (g_il (s_g s)) = PSendSig CO true).
+Proof.
+  intros s w Rs Hp Hq. pose proof (reachable_wake absorb_n react ok smode emode Hmode s Rs) as Wk.
+  assert (P : parked_o s = true) by (unfold parked_o; rewrite Hp; reflexivity).
+  destruct (wk_ao _ Wk P Hq) as [A | [[t B] | [C D]]]; auto.
+  - right. left. exists t. destruct (l_pc (s_l s t)); try discriminate. destruct c; try discriminate. destruct first; [reflexivity | discriminate].
+  - right. right. split; auto. destruct (l_pc (g_il (s_g s))); try discriminate. destruct c; try discriminate. destruct first; [reflexivity | discriminate].
+Qed.
+
+(* The safety form: while Messages are queued for it, the internal thread can take a step, or a thread that owes it
+   a signal can -- whatever the internal thread is doing. *)
+Theorem internal_never_stuck : forall s,
+  R s -> g_ist (s_g s) = ILive -> c_q (g_ci (s_g s)) <> [] ->
+  (exists x, sys_step s (LStep I CRun) = Some x) \/
+  (exists t x, is_pend_i (l_pc (s_l s t)) = true /\ sys_step s (LStep (U t) CRun) = Some x).
+Proof.
+  intros s Rs Hl Hq.
+  pose proof (reachable_wake absorb_n react ok smode emode Hmode s Rs) as Wk.
+  pose proof (reachable_wf absorb_n react ok smode emode s Rs) as W.
+  pose proof (wf_ipc _ _ _ W Hl) as Hi.
+  destruct (will_look (g_evd (s_g s)) (l_pc (g_il (s_g s)))) eqn:Hw.
+  - left. apply int_enabled; auto. eapply ipc_looks_unblocked; eauto.
+  - destruct (wk_ai _ Wk Hl Hw Hq) as [Rd | [t Pt]].
+    + left. apply int_enabled; auto. apply ipc_readable_unblocked; auto.
+    + right. destruct (user_enabled s t (pend_i_unblocked _ _ Pt)) as [x Hx]. eauto.
+Qed.
+
+Theorem owner_never_stuck : forall s w,
+  R s -> l_pc (s_l s 0) = PRecvPark CO w -> c_q (g_co (s_g s)) <> [] ->
+  (exists x, sys_step s (LStep (U 0) CRun) = Some x) \/
+  (exists t x, l_pc (s_l s t) = PSendSig CO true /\ sys_step s (LStep (U t) CRun) = Some x) \/
+  (l_pc (g_il (s_g s)) = PSendSig CO true /\ exists x, sys_step s (LStep I CRun) = Some x).
+Proof.
+  intros s w Rs Hp Hq.
+  destruct (no_lost_wakeup_owner s w Rs Hp Hq) as [A | [[t B] | [C D]]].
+  - left. apply user_enabled. unfold blocked. rewrite Hp. rewrite A. reflexivity.
+  - right. left. destruct (user_enabled s t) as [x Hx]; [unfold blocked; rewrite B; reflexivity | eauto].
+  - right. right. split; auto. apply int_enabled; auto. unfold blocked. rewrite D. reflexivity.
+Qed.
+
+(* ---- shutdown ---- *)
+
+Lemma J_step : forall s lab s' ev, wf smode emode s -> J_inv s -> sys_step s lab = Some (s', ev) -> J_inv s'.
+Proof.
+  intros s lab s' ev W Jv H.
+  destruct lab as [t o | [t|] c]; simpl in H.
+  - destruct (begin_op t o (s_l s t)) eqn:Hb; [|discriminate]. inv H.
+    unfold begin_op in Hb. destruct (l_pc (s_l s t)) eqn:Hp; try discriminate.
+    destruct (l_k (s_l s t)) eqn:Hk; try discriminate.
+    destruct (allowed t o) eqn:Ha; [|discriminate]. inv Hb.
+    unfold J_inv in *. simpl. unfold upd. destruct (Nat.eqb_spec 0 t) as [<- | Ht]; [|exact Jv].
+    simpl. destruct o; simpl; discriminate.
+  - destruct (step absorb_n react c (s_g s) (s_l s t)) as [[[g' l'] e']|] eqn:Hst; [|discriminate]. inv H.
+    apply step_spec in Hst.
+    destruct (s_l s t) as [p k] eqn:El.
+    assert (Hu : upc_ok t (mkL p k)) by (rewrite <- El; apply (wf_upc _ _ _ W)).
+    unfold J_inv in *. simpl. unfold upd. destruct (Nat.eqb_spec 0 t) as [<- | Ht].
+    + intros Hq. inversion Hst; subst; clear Hst; simpl in Hq; try discriminate; auto;
+        unfold upc_ok in Hu; simpl in Hu;
+        repeat match goal with y : chanid |- _ => destruct y | y : msg |- _ => destruct y end; simpl in Hu; try contradiction;
+        destruct k as [|[] [|? ?]]; simpl in Hu; try contradiction;
+        repeat match goal with
+        | Hr : ret _ _ _ _ = _ |- _ => simpl in Hr
+        | Hr : (if ?w then _ else _) = (_, _, _) |- _ => destruct w
+        | Hr : (_, _, _) = (_, _, _) |- _ => inv Hr
+        end; try discriminate.
+    + intros Hq. specialize (Jv Hq).
+      destruct (Step_running _ _ _ _ _ _ _ _ Hst) as [[n Hn] | [Hj | [Hx | (R1 & _)]]]; simpl in *;
+        try (subst p; unfold upc_ok in Hu; simpl in Hu; try contradiction).
+      * destruct k; [congruence | contradiction].
+      * destruct k as [|[] [|]]; try contradiction; congruence.
+      * congruence.
+  - destruct (g_ist (s_g s)) eqn:Hl; try discriminate.
+    destruct (step absorb_n react c (s_g s) (g_il (s_g s))) as [[[g' l'] e']|] eqn:Hst; [|discriminate]. inv H.
+    apply step_spec in Hst.
+    destruct (g_il (s_g s)) as [p k] eqn:El.
+    assert (Hi : ipc_ok (mkL p k)) by (rewrite <- El; apply (wf_ipc _ _ _ W); exact Hl).
+    unfold J_inv in *. simpl. intros Hq. specialize (Jv Hq).
+    destruct (Step_running _ _ _ _ _ _ _ _ Hst) as [[n Hn] | [Hj | [Hx | (R1 & _)]]]; simpl in *;
+      try (subst p; unfold ipc_ok in Hi; simpl in Hi; contradiction).
+    * subst p. inversion Hst; subst. simpl. exact Jv.
+    * congruence.
+Qed.
+
+Lemma reachable_J : forall s, R s -> J_inv s.
+Proof.
+  intros s H. induction H.
+  - intros Hq. discriminate.
+  - eapply J_step; eauto. eapply reachable_wf; eauto.
+Qed.
+
+(* ShutdownInternalThread(true), safety form: while the owner waits in the join, either the internal thread has
+   finished -- and the join returns --, or the internal thread is alive and it, or a thread that owes it a signal,
+   can take a step; in particular the NULL Message is still queued for it or it is already on its way out. *)
+Theorem shutdown_completes : forall s,
+  R s -> l_pc (s_l s 0) = PJoinWait -> l_k (s_l s 0) = [KDiscard] ->
+  (g_ist (s_g s) = IExited /\ exists x, sys_step s (LStep (U 0) CRun) = Some x) \/
+  (g_ist (s_g s) = ILive /\
+   (In None (c_q (g_ci (s_g s))) \/ exiting (l_pc (g_il (s_g s))) = true) /\
+   ((exists x, sys_step s (LStep I CRun) = Some x) \/
+    (exists t x, is_pend_i (l_pc (s_l s t)) = true /\ sys_step s (LStep (U t) CRun) = Some x))).
+Proof.
+  intros s Rs Hp Hk.
+  pose proof (reachable_wf absorb_n react ok smode emode s Rs) as W.
+  pose proof (reachable_S absorb_n react ok smode emode s Rs) as Sv.
+  pose proof (reachable_J s Rs Hp) as Hr.
+  assert (Hw : sh_wait (s_l s 0) = true) by (unfold sh_wait; rewrite Hp, Hk; reflexivity).
+  specialize (Sv Hw).
+  destruct (g_ist (s_g s)) eqn:Hl.
+  - exfalso. pose proof (wf_running _ _ _ W) as Hr2. rewrite Hl, Hr in Hr2. discriminate.
+  - right. split; [reflexivity|].
+    assert (Hc : In None (c_q (g_ci (s_g s))) \/ exiting (l_pc (g_il (s_g s))) = true).
+    { destruct Sv as [A | [B | [_ C]]]; auto. discriminate. }
+    split; [exact Hc|].
+    destruct Hc as [A | C].
+    + apply internal_never_stuck; auto. intros E. rewrite E in A. contradiction.
+    + left. apply int_enabled; auto. unfold blocked.
+      destruct (l_pc (g_il (s_g s))); try discriminate; try reflexivity.
+  - left. split; [reflexivity|]. apply user_enabled. unfold blocked. rewrite Hp, Hl. reflexivity.
+Qed.
+
+(* Messages queued before the thread is started are delivered once it starts: they stay queued, in order, ahead of
+   everything sent later (fifo_no_overtaking), and a started thread with a non-empty queue is never stuck. *)
+Theorem queued_before_start_delivered : forall s s',
+  R s -> g_running (s_g s) = false -> steps_if absorb_n react ok s s' ->
+  (exists got more,
+     c_rcvd (g_ci (s_g s')) = c_rcvd (g_ci (s_g s)) ++ got /\
+     got ++ c_q (g_ci (s_g s')) = c_q (g_ci (s_g s)) ++ more) /\
+  (g_ist (s_g s') = ILive -> c_q (g_ci (s_g s')) <> [] ->
+   (exists x, sys_step s' (LStep I CRun) = Some x) \/
+   (exists t x, is_pend_i (l_pc (s_l s' t)) = true /\ sys_step s' (LStep (U t) CRun) = Some x)).
+Proof.
+  intros s s' Rs _ St. split.
+  - destruct (fifo_no_overtaking absorb_n react ok smode emode s s' CI Rs St) as (got & more & A & _ & C).
+    exists got, more. auto.
+  - intros Hl Hq. apply internal_never_stuck; auto. eapply steps_reachable; eauto.
+Qed.
+
+(* A state in which no thread can take a step holds no undelivered Message for a blocked reader. *)
+Theorem stuck_only_when_nothing_to_receive : forall s,
+  R s -> (forall w c, sys_step s (LStep w c) = None) ->
+  (g_ist (s_g s) = ILive -> c_q (g_ci (s_g s)) = []) /\
+  (forall w, l_pc (s_l s 0) = PRecvPark CO w -> c_q (g_co (s_g s)) = []).
+Proof.
+  intros s Rs Hn. split.
+  - intros Hl. destruct (c_q (g_ci (s_g s))) eqn:Eq; [reflexivity|]. exfalso.
+    destruct (internal_never_stuck s Rs Hl) as [[x Hx] | (t & x & _ & Hx)]; [rewrite Eq; discriminate | |]; rewrite Hn in Hx; discriminate.
+  - intros w Hp. destruct (c_q (g_co (s_g s))) eqn:Eq; [reflexivity|]. exfalso.
+    destruct (owner_never_stuck s w Rs Hp) as [[x Hx] | [(t & x & _ & Hx) | [_ [x Hx]]]]; [rewrite Eq; discriminate | | |]; rewrite Hn in Hx; discriminate.
+Qed.
+
+End Theorems.
+
+(* ---------- closed forms: one statement for both kinds of internal thread ---------- *)
+
+(* nothing is asked of the programs when InternalThreadEntry is the default one; the event-driven one needs
+   "only the owner sends to the internal thread" *)
+Definition mode_ok (ok : label -> bool) (evd : bool) : Prop :=
+  evd = false \/ forall lab, ok lab = true -> owner_sends_ci lab = true.
+
+Lemma mode_ok_hyp : forall ok evd, mode_ok ok evd -> evd = true -> forall lab, ok lab = true -> owner_sends_ci lab = true.
+Proof. intros ok evd [H | H] He; [congruence | exact H]. Qed.
+
+Section Final.
+Variable absorb_n : nat.
+Variable react : nat -> list msg * bool.
+
+Notation sys_step := (sys_step absorb_n react).
+Notation reachable_if := (reachable_if absorb_n react).
+
+Theorem fifo_exactly_once : forall ok m e s c, reachable_if ok m e s ->
+  c_sent (ch (s_g s) c) = c_rcvd (ch (s_g s) c) ++ c_q (ch (s_g s) c).
+Proof. intros ok m e s c H. exact (reachable_fifo absorb_n react ok m e s H c). Qed.
+
+Theorem T_no_lost_wakeup_internal : forall ok m e s, mode_ok ok e -> reachable_if ok m e s ->
+  g_ist (s_g s) = ILive ->
+  (exists w, l_pc (g_il (s_g s)) = PRecvPark CI w) \/ l_pc (g_il (s_g s)) = PIEvWait ->
+  c_q (g_ci (s_g s)) <> [] ->
+  readable (s_g s) CI = true \/ exists t, is_pend_i (l_pc (s_l s t)) = true.
+Proof. intros ok m e s M. apply no_lost_wakeup_internal. apply mode_ok_hyp; exact M. Qed.
+
+Theorem T_no_lost_wakeup_owner : forall ok m e s w, mode_ok ok e -> reachable_if ok m e s ->
+  l_pc (s_l s 0) = PRecvPark CO w -> c_q (g_co (s_g s)) <> [] ->
+  readable (s_g s) CO = true \/ (exists t, l_pc (s_l s t) = PSendSig CO true) \/
+  (g_ist (s_g s) = ILive /\ l_pc (g_il (s_g s)) = PSendSig CO true).
+Proof. intros ok m e s w M. apply no_lost_wakeup_owner. apply mode_ok_hyp; exact M. Qed.
+
+Theorem T_internal_never_stuck : forall ok m e s, mode_ok ok e -> reachable_if ok m e s ->
+  g_ist (s_g s) = ILive -> c_q (g_ci (s_g s)) <> [] ->
+  (exists x, sys_step s (LStep I CRun) = Some x) \/
+  (exists t x, is_pend_i (l_pc (s_l s t)) = true /\ sys_step s (LStep (U t) CRun) = Some x).
+Proof. intros ok m e s M. apply internal_never_stuck. apply mode_ok_hyp; exact M. Qed.
+
+Theorem T_owner_never_stuck : forall ok m e s w, mode_ok ok e -> reachable_if ok m e s ->
+  l_pc (s_l s 0) = PRecvPark CO w -> c_q (g_co (s_g s)) <> [] ->
+  (exists x, sys_step s (LStep (U 0) CRun) = Some x) \/
+  (exists t x, l_pc (s_l s t) = PSendSig CO true /\ sys_step s (LStep (U t) CRun) = Some x) \/
+  (l_pc (g_il (s_g s)) = PSendSig CO true /\ exists x, sys_step s (LStep I CRun) = Some x).
+Proof. intros ok m e s w M. apply owner_never_stuck. apply mode_ok_hyp; exact M. Qed.
+
+Theorem T_shutdown_completes : forall ok m e s, mode_ok ok e -> reachable_if ok m e s ->
+  l_pc (s_l s 0) = PJoinWait -> l_k (s_l s 0) = [KDiscard] ->
+  (g_ist (s_g s) = IExited /\ exists x, sys_step s (LStep (U 0) CRun) = Some x) \/
+  (g_ist (s_g s) = ILive /\
+   (In None (c_q (g_ci (s_g s))) \/ exiting (l_pc (g_il (s_g s))) = true) /\
+   ((exists x, sys_step s (LStep I CRun) = Some x) \/
+    (exists t x, is_pend_i (l_pc (s_l s t)) = true /\ sys_step s (LStep (U t) CRun) = Some x))).
+Proof. intros ok m e s M. apply shutdown_completes. apply mode_ok_hyp; exact M. Qed.
+
+Theorem T_queued_before_start_delivered : forall ok m e s s', mode_ok ok e -> reachable_if ok m e s ->
+  g_running (s_g s) = false -> steps_if absorb_n react ok s s' ->
+  (exists got more,
+     c_rcvd (g_ci (s_g s')) = c_rcvd (g_ci (s_g s)) ++ got /\
+     got ++ c_q (g_ci (s_g s')) = c_q (g_ci (s_g s)) ++ more) /\
+  (g_ist (s_g s') = ILive -> c_q (g_ci (s_g s')) <> [] ->
+   (exists x, sys_step s' (LStep I CRun) = Some x) \/
+   (exists t x, is_pend_i (l_pc (s_l s' t)) = true /\ sys_step s' (LStep (U t) CRun) = Some x)).
+Proof. intros ok m e s s' M. apply queued_before_start_delivered. apply mode_ok_hyp; exact M. Qed.
+
+Theorem T_stuck_only_when_nothing_to_receive : forall ok m e s, mode_ok ok e -> reachable_if ok m e s ->
+  (forall w c, sys_step s (LStep w c) = None) ->
+  (g_ist (s_g s) = ILive -> c_q (g_ci (s_g s)) = []) /\
+  (forall w, l_pc (s_l s 0) = PRecvPark CO w -> c_q (g_co (s_g s)) = []).
+Proof. intros ok m e s M. apply stuck_only_when_nothing_to_receive. apply mode_ok_hyp; exact M. Qed.
+
+(* the life-cycle flags *)
+Theorem running_iff_thread_exists : forall ok m e s, reachable_if ok m e s ->
+  g_running (s_g s) = negb (ist_none (g_ist (s_g s))) /\
+  (g_ist (s_g s) = ILive -> g_sockets (s_g s) = true -> g_alloc (s_g s) = true /\ g_iopen (s_g s) = true).
+Proof.
+  intros ok m e s H. pose proof (reachable_wf absorb_n react ok m e s H) as W.
+  split; [apply (wf_running _ _ _ W) | apply (wf_live_sock _ _ _ W)].
+Qed.
+
+(* ---- executable runs, for the witness and the examples ---- *)
+
+Lemma run_reachable : forall ok m e labs s s', forallb ok labs = true -> run absorb_n react s labs = Some s' ->
+  reachable_if ok m e s -> reachable_if ok m e s'.
+Proof.
+  intros ok m e labs. induction labs as [|lab r IH]; intros s s' Hok H Rs; simpl in *.
+  - inv H. exact Rs.
+  - apply andb_true_iff in Hok. destruct Hok as [H1 H2].
+    destruct (sys_step s lab) as [[s1 ev]|] eqn:Hs; [|discriminate].
+    eapply IH; eauto. eapply reach_step; eauto.
+Qed.
+
+End Final.
+
+(* Without the contract an event-driven internal thread can lose a wake-up: StartInternalThread reads
+   _messages.HasItems() before the socket pair exists; a Message that another thread appends right after that read is
+   signalled into the void (the pair is not allocated yet), the initial signal is not sent (needsInitialSignal was
+   computed too early), and the new thread blocks on its wake-up socket for ever with the Message queued.
+   The witness: owner: Start reads HasItems() = false | thread 1: SendMessageToInternalThread(7) completely |
+   owner: allocates the pair, creates the thread, returns | internal thread: runs into its select(). *)
+Definition refute_labels : list label :=
+  [ LBegin 0 OStart; LStep (U 0) CRun;
+    LBegin 1 (OSend CI (Some 7)); LStep (U 1) CRun; LStep (U 1) CRun;
+    LStep (U 0) CRun; LStep (U 0) CRun;
+    LStep I CRun; LStep I CRun; LStep I CRun; LStep I CRun; LStep I CRun ].
+
+Theorem evd_lost_wakeup_refuted : forall absorb_n react,
+  exists s, reachable absorb_n react true true s /\
+    g_ist (s_g s) = ILive /\ l_pc (g_il (s_g s)) = PIEvWait /\ c_q (g_ci (s_g s)) = [Some 7] /\
+    readable (s_g s) CI = false /\ (forall t, l_pc (s_l s t) = PIdle) /\
+    (forall w c, sys_step absorb_n react s (LStep w c) = None).
+Proof.
+  intros absorb_n react.
+  destruct (run absorb_n react (sys0 true true) refute_labels) as [s|] eqn:Hr; [|vm_compute in Hr; discriminate].
+  exists s. split.
+  - eapply run_reachable; [|exact Hr | apply reach_init]. reflexivity.
+  - vm_compute in Hr. inv Hr. simpl. repeat split; auto.
+    + intros [|[|t]]; reflexivity.
+    + intros [[|[|t]]|] []; reflexivity.
+Qed.
+
+(* ---------- absorbing signal bytes makes progress (the translated buffer size is positive) ---------- *)
+
+Lemma absorb_progress : forall n c g, 1 <= n -> fd_ok g c = true -> 0 < c_sig (ch g c) ->
+  c_sig (ch (absorb n c g) c) < c_sig (ch g c).
+Proof.
+  intros n c g Hn Hf Hs. unfold absorb. rewrite Hf. rewrite ch_set_same. simpl. lia.
+Qed.
+
+Lemma absorb_drains : forall n c g, fd_ok g c = true -> c_sig (ch g c) <= n -> c_sig (ch (absorb n c g) c) = 0.
+Proof.
+  intros n c g Hf Hs. unfold absorb. rewrite Hf. rewrite ch_set_same. simpl. lia.
+Qed.
+
+(* ---------- non-vacuity: reachable states that satisfy the premises of the theorems ---------- *)
+
+Definition react0 : nat -> list msg * bool := fun _ => ([], false).
+
+Definition start_labels : list label := [LBegin 0 OStart; LStep (U 0) CRun; LStep (U 0) CRun; LStep (U 0) CRun].
+Definition int_park_labels : list label :=   (* the default internal thread runs into its blocking wait *)
+  [LStep I CRun; LStep I CRun; LStep I CRun; LStep I CRun; LStep I CRun; LStep I CRun; LStep I CRun].
+
+Ltac by_run labs m e :=
+  match goal with
+  | |- exists s, reachable_if ?a ?r ?ok ?mm ?ee s /\ _ =>
+      destruct (run a r (sys0 m e) labs) as [s|] eqn:Hr; [|vm_compute in Hr; discriminate];
+      exists s; split; [eapply run_reachable; [|exact Hr | apply reach_init]; reflexivity |];
+      vm_compute in Hr; inv Hr; simpl
+  end.
+
+(* the internal thread is parked, a Message is queued, the sender has not signalled yet *)
+Example ex_internal_parked : forall n, exists s, reachable_if n react0 any_label true false s /\
+  g_ist (s_g s) = ILive /\ l_pc (g_il (s_g s)) = PRecvPark CI WNever /\ c_q (g_ci (s_g s)) = [Some 5] /\
+  readable (s_g s) CI = false /\ l_pc (s_l s 1) = PSendSig CI true.
+Proof.
+  intros n. by_run (start_labels ++ int_park_labels ++ [LBegin 1 (OSend CI (Some 5)); LStep (U 1) CRun]) true false.
+  repeat split; reflexivity.
+Qed.
+
+(* the same with the wait-condition *)
+Example ex_internal_parked_wc : forall n, exists s, reachable_if n react0 any_label false false s /\
+  g_ist (s_g s) = ILive /\ l_pc (g_il (s_g s)) = PRecvPark CI WNever /\ c_q (g_ci (s_g s)) = [Some 5] /\
+  readable (s_g s) CI = false /\ l_pc (s_l s 1) = PSendSig CI true.
+Proof.
+  intros n. by_run (start_labels ++ int_park_labels ++ [LBegin 1 (OSend CI (Some 5)); LStep (U 1) CRun]) false false.
+  repeat split; reflexivity.
+Qed.
+
+(* the owner is parked on the reply queue, a reply is queued by another thread that has not signalled yet *)
+Example ex_owner_parked : forall n, exists s, reachable_if n react0 any_label true false s /\
+  l_pc (s_l s 0) = PRecvPark CO WNever /\ c_q (g_co (s_g s)) = [Some 9] /\ l_pc (s_l s 1) = PSendSig CO true.
+Proof.
+  intros n.
+  by_run (start_labels ++ [LBegin 0 (ORecv WNever); LStep (U 0) CRun; LStep (U 0) CRun; LStep (U 0) CRun;
+                           LBegin 1 (OSend CO (Some 9)); LStep (U 1) CRun]) true false.
+  repeat split; reflexivity.
+Qed.
+
+(* the owner waits in the join of ShutdownInternalThread(true) while the NULL Message is still queued *)
+Example ex_shutdown_waiting : forall n, exists s, reachable_if n react0 any_label true false s /\
+  l_pc (s_l s 0) = PJoinWait /\ l_k (s_l s 0) = [KDiscard] /\ g_ist (s_g s) = ILive /\ c_q (g_ci (s_g s)) = [None].
+Proof.
+  intros n.
+  by_run (start_labels ++ [LBegin 0 (OShutdown true); LStep (U 0) CRun; LStep (U 0) CRun; LStep (U 0) CRun; LStep (U 0) CRun]) true false.
+  repeat split; reflexivity.
+Qed.
+
+(* ... and after the internal thread has left *)
+Example ex_shutdown_exited : forall n, exists s, reachable_if n react0 any_label true false s /\
+  l_pc (s_l s 0) = PJoinWait /\ l_k (s_l s 0) = [KDiscard] /\ g_ist (s_g s) = IExited.
+Proof.
+  intros n.
+  by_run (start_labels ++ [LBegin 0 (OShutdown true); LStep (U 0) CRun; LStep (U 0) CRun; LStep (U 0) CRun; LStep (U 0) CRun] ++
+          [LStep I CRun; LStep I CRun; LStep I CRun; LStep I CRun; LStep I CRun; LStep I CRun; LStep I CRun; LStep I CRun]) true false.
+  repeat split; reflexivity.
+Qed.
+
+(* Messages queued while the thread is not running (their signal was dropped: no socket pair yet) *)
+Example ex_queued_before_start : forall n, exists s, reachable_if n react0 any_label true false s /\
+  g_running (s_g s) = false /\ c_q (g_ci (s_g s)) = [Some 1; Some 2] /\ c_sig (g_ci (s_g s)) = 0 /\ g_alloc (s_g s) = false.
+Proof.
+  intros n.
+  by_run [LBegin 0 (OSend CI (Some 1)); LStep (U 0) CRun; LStep (U 0) CRun; LBegin 0 (OSend CI (Some 2)); LStep (U 0) CRun; LStep (U 0) CRun] true false.
+  repeat split; reflexivity.
+Qed.
+
+(* the event-driven thread is blocked in its select() with a Message queued before the start: only
+   StartInternalThread's initial signal, still to be sent, will wake it *)
+Example ex_evd_parked : forall n, exists s, reachable_if n react0 owner_sends_ci true true s /\
+  g_ist (s_g s) = ILive /\ l_pc (g_il (s_g s)) = PIEvWait /\ c_q (g_ci (s_g s)) = [Some 3] /\
+  readable (s_g s) CI = false /\ l_pc (s_l s 0) = PStartSig true.
+Proof.
+  intros n.
+  by_run [LBegin 0 (OSend CI (Some 3)); LStep (U 0) CRun; LStep (U 0) CRun;
+          LBegin 0 OStart; LStep (U 0) CRun; LStep (U 0) CRun;
+          LStep I CRun; LStep I CRun; LStep I CRun; LStep I CRun; LStep I CRun] true true.
+  repeat split; reflexivity.
+Qed.
+
+(* a state in which nothing can move *)
+Example ex_stuck : forall n, exists s, reachable_if n react0 any_label true false s /\
+  (forall w c, sys_step n react0 s (LStep w c) = None).
+Proof.
+  intros n. exists (sys0 true false). split; [apply reach_init|]. intros [t|] []; reflexivity.
+Qed.
+
+Example ex_mode_ok_default : mode_ok any_label false.
+Proof. left. reflexivity. Qed.
+
+Example ex_mode_ok_evd : mode_ok owner_sends_ci true.
+Proof. right. auto. Qed.
